@@ -84,7 +84,6 @@ Definition model_obs (c : chain) (runs : list runspec) : list run_obs := obs_his
 Definition fresh (v : version) : bool := negb (v_stale v) && negb (v_crl_stale v).
 Definition not_premature (v : version) : bool := negb (v_premature v).
 
-Definition to_reject (r : runspec) : runspec := {| rs_pol := Reject; rs_mode := rs_mode r |}.
 
 (* The property for one run, given the store the implementation showed before the run (prev) and
    the collector's copy (a function of the case):
